@@ -28,6 +28,8 @@ def run(prog, chk):
     chk.rule(guards_and_closure, prog, chk)
     chk.rule(closure_preserved, prog, chk)
     chk.rule(collection, prog, chk)
+    chk.rule(gating_flag_writers, prog, chk)
+    chk.rule(generated_text_uses_no_class, prog, chk)
     chk.rule(colours, prog, chk)
     chk.rule(plain_guards, prog, chk)
     chk.rule(evaluated_classes_are_split, prog, chk)
@@ -442,6 +444,45 @@ def pattern_ids(prog, chk):
         f"the rule fills with url(#{ci}) and the definition's id is the same term; it is the selecting class {cs} minus a constant prefix (distinct classes get distinct ids, so each url(#id) is defined exactly once)",
         (f"the rule references url(#{ci}) but the definition carries id {A.canon(def_id)}" if not same else f"the pattern id {ci} is not the selecting class {cs} with a constant prefix removed: two different classes can map to the same id, giving duplicate definitions"),
     )
+
+
+def gating_flag_writers(prog, chk):
+    """the author's `add-auto-styles` setting is what the gating reads: the field is assigned where <config> (or the
+    command line) is read and nowhere else - no other setting switches style injection back on behind it"""
+    w = R.field_writers(prog, "add_auto_styles", "svgdx::TransformConfig")
+    allowed = "<svgdx::transform::ConfigElement as svgdx::transform::EventGen>::generate_events"
+    extra = []
+    for k in sorted(w):
+        if k == allowed or re.sub(r"(::\{closure#\d+\})+", "", k) == allowed or allowed in prog.owners_of(k) or k.startswith(("svgdx::cli::", "<svgdx::cli::")):
+            continue
+        extra.append(k)
+    chk.ob(not extra, "A10.gating-flag", "add_auto_styles", "src/context.rs", "TransformConfig::add_auto_styles is assigned only where the author's setting is read", f"TransformConfig::add_auto_styles is also assigned in {[x.replace('svgdx::', '') for x in extra]}: styles can be injected although the author switched them off (or the reverse)")
+
+
+def generated_text_uses_no_class(prog, chk):
+    """the generated <defs> / <style> text carries no `class=` of its own: the classes of the document were collected
+    before that text was generated, so a class used only there has no rule"""
+    hits = []
+    n = 0
+    for b, h in prog.hir_items():
+        if b is None or not isinstance(h, dict) or not b.path.startswith(THEMES):
+            continue
+        for node in hirq.walk(h.get("body")):
+            if node.get("k") != "Lit" or not isinstance(node.get("lit"), dict):
+                continue
+            texts = [node["lit"]["str"]] if isinstance(node["lit"].get("str"), str) else []
+            if "bytes" in node["lit"]:
+                try:
+                    texts += [v for kind, v in hirq.decode_template(node["lit"]["bytes"]) if kind == "lit"]
+                except Exception:  # noqa: BLE001
+                    pass
+            for t_ in texts:
+                n += 1
+                m_ = re.search(r"<[a-zA-Z][^>]*\sclass=\"([^\"]*)", t_)
+                if m_:
+                    hits.append((b.where(line=node.get("line")), m_.group(1)))
+    chk.floor("A16.generated-class", n, 40, "literal in src/themes.rs")
+    chk.ob(not hits, "A16.generated-class", "themes", hits[0][0] if hits else "src/themes.rs", "no generated definition / rule text uses a class attribute", f"generated text uses class=\"{hits[0][1] if hits else ''}\" ({hits[0][0] if hits else ''}): the class scan ran before this text was generated, so unless an element of the document happens to use the same class no rule for it is written")
 
 
 def collection(prog, chk):
